@@ -207,7 +207,14 @@ func TestVerifRaftx(t *testing.T) {
 		cfg := cfgs[rp.Cfg]
 		c := newCluster(cfg)
 		bad := false
+		if msg := c.Check(); msg != "" {
+			res.Violate(keyOfX(msg), msg, map[string]interface{}{"path": []uint32{}, "cfg": rp.Cfg})
+			bad = true
+		}
 		for i, e := range rp.Path {
+			if bad {
+				break
+			}
 			msg := c.Step(e)
 			if msg == "" {
 				msg = c.Check()
